@@ -95,7 +95,7 @@ Qed.
 Lemma prov_update_K c s g L :
   CInv c L -> KInv c g -> pv_exists (cp_prov c) = true -> KInv (fst (prov_update c s)) (Some s).
 Proof.
-  intros I K Ex. destruct K as [K1 K0 K2 K3 K4]. destruct I as [Ih Psh Pn Sv Un Pr Ci]. unfold prov_update.
+  intros I K Ex. destruct K as [K1 K0 K2 K3 K4]. destruct I as [Ih Psh Pn Sv Un Pr Ci]. rewrite prov_update_eq. unfold prov_update_old.
   set (p := set_prov (cp_prov c) true (pv_confirmed (cp_prov c))).
   set (sname := replace_byte DOT DASH (bs_data (s_name s))).
   set (fq := sname ++ [DOT] ++ bs_data (s_type s)).
@@ -266,7 +266,7 @@ Proof.
                               | Some pb => let '(pb', e) := prober_handle now pb (EvMsg m) in (Some pb', e)
                               | None => (None, []) end))).
     { destruct (cp_prober c) as [pb|]; [|apply silent_nil]. cbn [prober_handle].
-      destruct (pb_confirmed pb || negb (m_response m)); [apply silent_nil|].
+      unfold prober_ignore_message in *. destruct (pb_confirmed pb || negb (m_response m)); [apply silent_nil|].
       pose proof (on_records_silent (m_records m) pb) as S. destruct (on_records (m_records m) pb) as [pb' e]. exact S. }
     destruct (match cp_prober c with Some pb => _ | None => (None, []) end) as [pb e3]. cbn [fst snd] in *.
     apply silent_app; [exact S1|]. apply silent_app; [|exact S3].
@@ -279,7 +279,7 @@ Proof.
     + pose proof (host_handle_silent now (cp_host c) (EvTimer tid)) as S1.
       destruct (host_handle now (cp_host c) (EvTimer tid)) as [h1 e1]. cbn [fst snd] in *. apply with_slot_silent, S1.
   - destruct a as [| |s|]; try apply silent_nil.
-    + destruct (pv_exists (cp_prov c)); [|apply silent_nil]. unfold prov_update in *.
+    + destruct (pv_exists (cp_prov c)); [|apply silent_nil]. rewrite prov_update_eq in *. unfold prov_update_old in *.
       set (p := set_prov (cp_prov c) true (pv_confirmed (cp_prov c))) in *.
       match goal with |- context [if negb (match bs_data (r_target (pv_srvP ?q)) with [] => true | _ :: _ => false end) then _ else _] => set (p1 := q) in * end.
       destruct (negb (match bs_data (r_target (pv_srvP p1)) with [] => true | _ :: _ => false end)); [|apply silent_nil].
